@@ -87,14 +87,15 @@ def header_list(report, label):
     return None if m is None else m.group(1).split(', ')
 
 
-def check_assignment(ctx, rule, name, fv, cv):
-    "fv / cv: value in the file layer / caller layer or None"
+def check_assignment(ctx, rule, name, fv, cv, base=None):
+    "fv / cv: value in the file layer / caller layer or None; base: extra caller options (the arithmetic under which the name is exercised)"
     file_tokens = [as_file_token(name, fv)] if fv is not None else []
     text = PROFILE % ('[droop %s]' % ' '.join(file_tokens) if file_tokens else '')
     caller = dict(rule=rule)
+    caller.update(base or {})
     if cv is not None:
         caller[name] = cv
-    case = dict(kind='layers', blt=text, options=dict(caller), name=name, rule=rule)
+    case = dict(kind='layers', blt=text, options=dict(caller), name=name, rule=rule, base=base)
     ctx.evaluated()
     run = do_count(text, dict(caller), budget=5.0, render=True)
     if run.error is not None:
@@ -111,7 +112,7 @@ def check_assignment(ctx, rule, name, fv, cv):
     ctx.count('layer_assignments_checked')
     if fv is not None and cv is not None:
         ctx.count('assignments_with_both_layers')
-        ctx.mark_nontrivial('%s/%s/%r/%r' % (rule, name, fv, cv))
+        ctx.mark_nontrivial('%s/%s/%r/%r/%r' % (rule, name, fv, cv, base))
     forced = FORCED.get(rule, {})
     eff_arith = forced.get('arithmetic') or (cv if name == 'arithmetic' and cv is not None else (fv if name == 'arithmetic' and fv is not None else E.options.default.get('arithmetic')))
     if eff_arith == 'integer' and name == 'precision':
@@ -173,7 +174,7 @@ def check_assignment(ctx, rule, name, fv, cv):
         ctx.violation('effect:meek-attributes', 'rule attributes differ from the effective options', case)
     # ---- report header
     ctx.count('report_headers_checked')
-    supplied = {}
+    supplied = dict(base or {})
     if fv is not None:
         supplied[name] = fv
     if cv is not None:
@@ -256,16 +257,22 @@ def all_assignments():
     for rule in configs.ALL_RULES:
         for name in NAMES:
             vals = values_for(rule, name)
-            for fv, cv in itertools.product([None] + vals, repeat=2):
-                out.append((rule, name, fv, cv))
+            bases = [None]
+            if rule in ('wigm', 'meek', 'warren') and name != 'arithmetic':
+                bases = [None, dict(arithmetic='fixed', precision=7), dict(arithmetic='rational')]
+                if name == 'precision':
+                    bases = [None, dict(arithmetic='fixed'), dict(arithmetic='rational')]
+            for base in bases:
+                for fv, cv in itertools.product([None] + vals, repeat=2):
+                    out.append((rule, name, fv, cv, base))
     return out
 
 
 def shard(ctx):
     allas = all_assignments()
-    for i, (rule, name, fv, cv) in enumerate(allas):
+    for i, (rule, name, fv, cv, base) in enumerate(allas):
         if i % ctx.nshards == ctx.shard:
-            check_assignment(ctx, rule, name, fv, cv)
+            check_assignment(ctx, rule, name, fv, cv, base)
     ctx.count('assignment_enumeration_complete_shards')
     n_min = 20 if ctx.quick else 300
     for i, rng in ctx.cases(n_min, 10 ** 9):
@@ -284,7 +291,7 @@ def replay(case):
         if m:
             raw = m.group(1)
             fv = True if raw == 'true' else False if raw == 'no' else (int(raw) if raw.isdigit() else raw)
-        check_assignment(ctx, case['rule'], name, fv, cv)
+        check_assignment(ctx, case['rule'], name, fv, cv, case.get('base'))
     else:
         r0 = do_count(case['blt'], dict(rule=case['rule']), budget=60, render=True)
         r1 = do_count(case['blt2'], case['options'], budget=60, render=True)
